@@ -358,6 +358,32 @@ def run(ctx):
 
     # ------------------------------------------------------------------ R5
     r5 = ctx.rule("C07.R5", "each lower-layer read requests exactly the missing part of the header / payload")
+    check_read_lengths(P, eng, r5)
+
+    # ------------------------------------------------------------------ R4
+    r4 = ctx.rule("C07.R4", "the bad flag of the framing transports is only ever set to true")
+    for f in P.functions:
+        for b, i, e, lhs, rhs, op in f.stores():
+            flds = f.fields_of(lhs)
+            if flds and flds[-1] == "bad" and f.file.endswith(("xcm_tp_tcp.c", "xcm_tp_tls.c")):
+                r4.instance("%s:%s" % (f.qname, f.show(e)))
+                if op == "=" and rhs is not None and C.const_of(f, rhs) == 1:
+                    r4.ok("%s: bad = true" % f.qname)
+                else:
+                    r4.violation("%s:bad-reset" % f.name, "the sticky failure flag is modified with %s" % f.show(e), loc=f.loc(e))
+    r4.floor(2, "stores to the bad flag")
+
+    # ------------------------------------------------------------------ R6
+    r6 = ctx.rule("C07.R6", "a TLS protocol error drains OpenSSL's error queue on every path")
+    pe = P.fn("process_ssl_event")
+    r6.instance("process_ssl_event")
+    dr = DrainRule(P, pe, r6)
+    S.run(dr, pe)
+    if dr.nproto < 2:
+        raise Broken("C07.R6: protocol-error exits of process_ssl_event not found (%d)" % dr.nproto)
+
+
+def check_read_lengths(P, eng, r5):
     for f in P.functions:
         if not f.file.endswith(("tcp/xcm_tp_tcp.c", "tls/xcm_tp_tls.c")):
             continue
@@ -388,27 +414,7 @@ def run(ctx):
                              "(mbuf_hdr_left / mbuf_payload_left): bytes of the next frame can be consumed" % g.show(a), loc=g.loc(call))
     r5.floor(4, "lower-layer read sites")
 
-    # ------------------------------------------------------------------ R4
-    r4 = ctx.rule("C07.R4", "the bad flag of the framing transports is only ever set to true")
-    for f in P.functions:
-        for b, i, e, lhs, rhs, op in f.stores():
-            flds = f.fields_of(lhs)
-            if flds and flds[-1] == "bad" and f.file.endswith(("xcm_tp_tcp.c", "xcm_tp_tls.c")):
-                r4.instance("%s:%s" % (f.qname, f.show(e)))
-                if op == "=" and rhs is not None and C.const_of(f, rhs) == 1:
-                    r4.ok("%s: bad = true" % f.qname)
-                else:
-                    r4.violation("%s:bad-reset" % f.name, "the sticky failure flag is modified with %s" % f.show(e), loc=f.loc(e))
-    r4.floor(2, "stores to the bad flag")
 
-    # ------------------------------------------------------------------ R6
-    r6 = ctx.rule("C07.R6", "a TLS protocol error drains OpenSSL's error queue on every path")
-    pe = P.fn("process_ssl_event")
-    r6.instance("process_ssl_event")
-    dr = DrainRule(P, pe, r6)
-    S.run(dr, pe)
-    if dr.nproto < 2:
-        raise Broken("C07.R6: protocol-error exits of process_ssl_event not found (%d)" % dr.nproto)
 
 
 def check_mbuf_structure(P, rule):
